@@ -170,7 +170,7 @@ PROPS['C09'] = dict(level='exploration', jobs=fungible_jobs,
 
 def c15_jobs(b, prop, tier, seed):
     a = codec_jobs(b, prop, tier, seed)
-    u = single_jobs('uhandle', 1, 4)(b, prop, tier, seed)
+    u = single_jobs('uhandle', 2, 8, ['--scale', '20'])(b, prop, tier, seed)
     if a is None or u is None:
         return None
     return a + u
@@ -183,28 +183,28 @@ PROPS['C15']['rule'] += (' Part (b): model-based operation sequences over severa
 
 OPSEQ = ('Model-based operation sequences: each op is applied to the real libnop objects and to an explicit model, the invariant is checked after every step; all sequences up to a bounded '
          'length over a reduced alphabet are enumerated, longer sequences come from rapidcheck-generated choice tapes (shrunk on failure). ')
-PROPS['C12'] = dict(level='exploration', jobs=single_jobs('variant', 1, 8),
+PROPS['C12'] = dict(level='exploration', jobs=single_jobs('variant', 4, 16, ['--scale', '40']),
                     rule=OPSEQ + 'Slots of Variant<Tracked<1>,Tracked<2>,int,string>, Variant<Tracked<2>,Tracked<1>> and Variant<Tracked<1>,string>; 20 op kinds (construct, copy/move construct and assign '
                     'incl. self and across Variant types, element/convertible/EmptyVariant assignment, Become in and out of range with and without arguments, Visit, get, destroy, armed throwing constructor). '
                     'Exhaustive to length 3 (quick) / 4 (thorough) on 3 slot pairs, random sequences up to 60 ops. Non-trivial = an assignment between different alternatives or a throwing constructor.',
                     assumptions=['state after a throwing element constructor: unchanged or empty are both accepted', 'payload of a moved-from std::string is not checked'])
-PROPS['C13'] = dict(level='exploration', jobs=single_jobs('optres', 1, 8),
+PROPS['C13'] = dict(level='exploration', jobs=single_jobs('optres', 4, 16, ['--scale', '40']),
                     rule=OPSEQ + '14 slots of Optional / Entry / Result / Result<E,void> / Status over lifetime-tracking and trivial element types; all constructors, assignments (incl. self, converting, '
                     'from error / None), clear, take, observers, destroy, armed throwing constructor. Plus all 576 operand-state x operator cases of the Optional comparisons for three element types and '
                     'GetErrorMessage for every ErrorStatus. Non-trivial = assignment over a non-empty target from a non-empty source, a move-assignment, or a throwing constructor.',
                     assumptions=['state after a throwing element constructor: either outcome accepted', 'move-construction sources are not required to be emptied (only move-assignment is promised)'])
-PROPS['C16'] = dict(level='exploration', jobs=single_jobs('bounded', 1, 8),
+PROPS['C16'] = dict(level='exploration', jobs=single_jobs('bounded', 4, 16, ['--scale', '20']),
                     rule=OPSEQ + 'BoundedReader<LogReader> / BoundedWriter<LogWriter> with limits {0,1,2,7,8,64,2^64-1,random}, wrapped objects with their own capacity and an optional scripted failure; '
                     'ops Ensure/Prepare, byte and block Read/Write (widths 1/2/4/8, counts 0..9), Skip, ReadPadding/WritePadding with sizes 0, rem-1, rem, rem+1, 2^63, 2^64-rem, 2^64-1. '
                     'Non-trivial = a call landing exactly on the limit and one crossing it, or a wrapped failure followed by further calls.',
                     assumptions=[])
-PROPS['C17'] = dict(level='exploration', jobs=single_jobs('rw', 1, 8),
+PROPS['C17'] = dict(level='exploration', jobs=single_jobs('rw', 8, 16, ['--scale', '16']),
                     rule=OPSEQ + '17 reader configurations (Buffer, Pedantic, Stream over stringstream and ifstream, Fd, BoundedReader over each with limit =,<,> source) and 10 writer configurations '
                     '(Buffer, Pedantic, Constexpr, Stream, Fd, BoundedWriter over each) are driven with the same Read/Skip/Ensure resp. Prepare/Write/Skip sequences for 13+ element types and compared '
                     'with a cursor model up to and including the first failing call; plus 54 constexpr constants serialized at compile time and compared byte for byte with run-time serialization. '
                     'Non-trivial = the sequence reaches a first failing call after a successful multi-byte call.',
                     assumptions=['FdReader/FdWriter have no Skip: Skip ops are no-ops for them'])
-PROPS['C19'] = dict(level='exploration', jobs=single_jobs('threads', 2, 16),
+PROPS['C19'] = dict(level='exploration', jobs=single_jobs('threads', 8, 16, ['--scale', '6']),
                     rule='Programs for 2-8 threads generated from rapidcheck tapes in the main thread (round trips over 8 types, table cross-version reads, Variant/Optional bursts with tracked elements, '
                     'RPC calls on a thread-owned connection, ThreadLocal construct/Initialize/Get/modify/Clear on 7 shared (T,Slot) instantiations); each program runs R=5 (quick) / 50 (thorough) times '
                     'behind a start barrier with hash-derived yield/spin perturbation under ThreadSanitizer; every thread log must equal the sequential model run. '
